@@ -1,4 +1,4 @@
-import TarsModel.Proofs.ServerConnEarly
+import TarsModel.Proofs.ServerConnNotify
 
 /-!
 # C12 — Graceful shutdown answers every request already received
@@ -167,7 +167,7 @@ of `tcpHandler.handleConn`) from the source on every run; if either repair is re
 decrement is no longer deferred, this theorem no longer builds. -/
 theorem C12_current_tree (pool : Option (Nat × Nat)) : treeCfg pool = repaired pool := by
   simp [treeCfg, repaired, Consts.srvHandleWaitsBeforeRelease, Consts.srvCloseIdlesCloses,
-    Consts.srvInvokeDecDeferred, Consts.srvInvokeDecBeforeWrite]
+    Consts.srvInvokeDecDeferred, Consts.srvInvokeDecBeforeWrite, Consts.srvRecvDrainTickFirst]
 
 /-- hence the safety part of C12 holds for the model variant of the current tree -/
 theorem C12_current_tree_safety (pool : Option (Nat × Nat)) : C12_safety (treeCfg pool) := by
@@ -181,7 +181,7 @@ wake-up, drains and closes; the client has the response, the close message and E
 example : ∃ s, run (repaired none)
     [.connect, .accept 0, .register 0, .stamp 0, .age 0, .send 0 7, .read 0 1,
      .shutdownCall, .setClosed, .acceptExit, .onShutdownRet, .ciBegin, .ciVisit 0, .ciEnd,
-     .dispatch 0, .start 0 0, .fin 0 0, .write 0 0, .dec 0 0, .stamp 0, .readErr 0 false, .drainClose 0,
+     .dispatch 0, .start 0 0, .fin 0 0, .write 0 0, .dec 0 0, .stamp 0, .readErr 0 false, .drainTick 0, .drainClose 0,
      .recvRsp 0 0, .recvMsg 0, .recvEof 0, .ciBegin, .ciEnd] = some s ∧
     s.spc = .returned true ∧
     (s.conns.map fun k => (k.srvClosed, k.reqs.map (·.st), k.got, k.gotMsg, k.sawEof)) =
@@ -257,14 +257,14 @@ theorem C12_early_decrement_counterexample :
     ∃ s, run earlyCfg
         [.connect, .accept 0, .register 0, .stamp 0, .send 0 5, .read 0 1, .dispatch 0, .start 0 0,
          .finEarly 0 0, .stamp 0, .shutdownCall, .setClosed, .acceptExit, .onShutdownRet, .ciBegin,
-         .ciVisit 0, .ciEnd, .readErr 0 false, .drainClose 0, .lateWrite 0 0, .recvMsg 0, .recvEof 0] = some s ∧
+         .ciVisit 0, .ciEnd, .readErr 0 false, .drainTick 0, .drainClose 0, .lateWrite 0 0, .recvMsg 0, .recvEof 0] = some s ∧
       (s.conns.map fun k => (k.srvClosed, k.numInvoke, k.got, k.sawEof)) = [(true, 0, [], true)] ∧
       (s.conns.map fun k => k.reqs.map (fun q => (q.dispOpen, q.st))) = [[(true, .doneLate false)]] ∧
       ¬ C12_safety earlyCfg := by
   have hrun : ∃ s, run earlyCfg
         [.connect, .accept 0, .register 0, .stamp 0, .send 0 5, .read 0 1, .dispatch 0, .start 0 0,
          .finEarly 0 0, .stamp 0, .shutdownCall, .setClosed, .acceptExit, .onShutdownRet, .ciBegin,
-         .ciVisit 0, .ciEnd, .readErr 0 false, .drainClose 0, .lateWrite 0 0, .recvMsg 0, .recvEof 0] = some s := ⟨_, rfl⟩
+         .ciVisit 0, .ciEnd, .readErr 0 false, .drainTick 0, .drainClose 0, .lateWrite 0 0, .recvMsg 0, .recvEof 0] = some s := ⟨_, rfl⟩
   obtain ⟨s, hs⟩ := hrun
   have e := hs
   simp only [run, earlyCfg, repaired] at e
@@ -285,7 +285,7 @@ loop is woken and returns. -/
 def leakSchedule : List Action :=
   [.connect, .accept 0, .register 0, .stamp 0, .sendNR 0 5, .read 0 1, .dispatch 0, .start 0 0, .fin 0 0,
    .skip 0 0, .stamp 0, .shutdownCall, .setClosed, .acceptExit, .onShutdownRet, .ciBegin, .ciVisit 0,
-   .ciEnd, .readErr 0 false, .recvMsg 0]
+   .ciEnd, .readErr 0 false, .drainTick 0, .recvMsg 0]
 
 /-- **The leak.** If the handler's `numInvoke--` is not deferred, `leakSchedule` is a run after which
 nothing is in flight (the only handler has returned), the client has the close message and the receive
@@ -326,14 +326,14 @@ theorem C12_oneway_leak_pool_counterexample :
     ∃ s, run (leakCfg (some (1, 8)))
         [.connect, .accept 0, .register 0, .stamp 0, .sendNR 0 5, .read 0 1, .dispatch 0, .enqueue 0, .pTake,
          .pGive, .start 0 0, .fin 0 0, .skip 0 0, .stamp 0, .shutdownCall, .setClosed, .acceptExit,
-         .onShutdownRet, .ciBegin, .ciVisit 0, .ciEnd, .readErr 0 false, .recvMsg 0] = some s ∧
+         .onShutdownRet, .ciBegin, .ciVisit 0, .ciEnd, .readErr 0 false, .drainTick 0, .recvMsg 0] = some s ∧
       s.apc = .afterLoop ∧ busy s = 0 ∧ s.jobQ = [] ∧
       (∀ (acts : List Action) (s' : State), runFrom (leakCfg (some (1, 8))) s acts = some s' →
         step (leakCfg (some (1, 8))) s' .relCall = none ∧ s'.spc ≠ .returned true) := by
   have hrun : ∃ s, run (leakCfg (some (1, 8)))
         [.connect, .accept 0, .register 0, .stamp 0, .sendNR 0 5, .read 0 1, .dispatch 0, .enqueue 0, .pTake,
          .pGive, .start 0 0, .fin 0 0, .skip 0 0, .stamp 0, .shutdownCall, .setClosed, .acceptExit,
-         .onShutdownRet, .ciBegin, .ciVisit 0, .ciEnd, .readErr 0 false, .recvMsg 0] = some s := ⟨_, rfl⟩
+         .onShutdownRet, .ciBegin, .ciVisit 0, .ciEnd, .readErr 0 false, .drainTick 0, .recvMsg 0] = some s := ⟨_, rfl⟩
   obtain ⟨s, hs⟩ := hrun
   have e := hs
   simp only [run, leakCfg, repaired] at e
@@ -445,6 +445,81 @@ theorem C12_app_current_tree : treeCapture = .argument := by
 
 end App
 
+/-! ## The close message comes before the deferred close -/
+
+/-- **Notified before closed.** In the current code a server connection is closed only by the deferred
+function of its own receive loop, and that function tests `numInvoke` only after a tick of a 500 ms
+ticker it creates when the receive loop returns (`for range tk.C { if … == 0 { break } }`). The LTS
+serves timers in the order of their due times: a drain ticker created after `Shutdown` created its
+poll ticker fires after the poller's first tick (`drainTick` needs `firstPoll`). Then, for every
+interleaving: a connection
+ * whose receive loop returned while `Shutdown` was already polling (`tickAfterPoll`: every connection
+   still being served when `Shutdown` started to poll),
+ * that was in the connection table when `sendCloseMsg` ran (not `lateReg`: the window between `Accept`
+   returning and `t.conns.Store` is `C12_notify_unregistered_counterexample`),
+ * in a run where the close message had been sent by the poller's first `CloseIdles` call
+   (`fpNotified`: the accept loop had noticed `isClosed` by then; otherwise `sendCloseMsg` is postponed
+   to a later poll)
+has had the close message written to it before the server closes it — however late its last request
+arrived and however quick its handlers were. -/
+theorem C12_notified_before_close (cfg : Cfg) (hci : cfg.ci = .kickOnly) (hdt : cfg.drainFirstTick = true)
+    (acts : List Action) (s : State) (hrun : run cfg acts = some s) (c : Nat) (k : Conn)
+    (hk : s.conns[c]? = some k) (hcl : k.srvClosed = true) (htick : k.tickAfterPoll = true)
+    (hreg : k.lateReg = false) (hfp : s.fpNotified = true) : k.notified = true := by
+  have hr := run_reachable hrun
+  have hN := ninv_reachable hci hdt hr
+  have hn := hN.conns c k hk
+  have hpc := (kick_reachable hci hr c k hk).closedPc hcl
+  have hfirst := hn.p1 htick (Or.inr hpc)
+  have hl := hN.g1 hfirst hfp
+  have hsaw := hn.p5 hl (by rw [hpc]; simp)
+  rcases hn.p2 hsaw with h | h | h
+  · exact h
+  · have := hn.p3 h htick; rw [hfp] at this; contradiction
+  · rw [hreg] at h; contradiction
+
+/-- for the model variant of the current tree -/
+theorem C12_current_tree_notified (pool : Option (Nat × Nat)) (acts : List Action) (s : State)
+    (hrun : run (treeCfg pool) acts = some s) (c : Nat) (k : Conn) (hk : s.conns[c]? = some k)
+    (hcl : k.srvClosed = true) (htick : k.tickAfterPoll = true) (hreg : k.lateReg = false)
+    (hfp : s.fpNotified = true) : k.notified = true := by
+  rw [C12_current_tree] at hrun
+  exact C12_notified_before_close _ rfl rfl acts s hrun c k hk hcl htick hreg hfp
+
+/-- A client that is connected when `Shutdown` is called and writes a request after the call and before
+the poller's first tick; the handler is quick; then silence: the receive loop returns on its 100 ms
+closing-state deadline. -/
+def lateRequestSchedule : List Action :=
+  [.connect, .accept 0, .register 0, .stamp 0, .shutdownCall, .setClosed, .acceptExit, .onShutdownRet,
+   .send 0 5, .read 0 1, .dispatch 0, .start 0 0, .fin 0 0, .write 0 0, .dec 0 0, .stamp 0, .readErr 0 false]
+
+/-- non-vacuity of `C12_notified_before_close`, and what the first tick is for: after
+`lateRequestSchedule` the deferred drain may not test `numInvoke` yet (`drainTick` is not enabled); the
+poller's first call comes first, notifies the connection, and only then the connection is closed. -/
+example : ∃ s, run (repaired none) lateRequestSchedule = some s ∧ step (repaired none) s (.drainTick 0) = none ∧
+    ∃ s', runFrom (repaired none) s [.ciBegin, .ciVisit 0, .ciEnd, .drainTick 0, .drainClose 0, .recvRsp 0 0,
+        .recvMsg 0, .recvEof 0, .ciBegin, .ciEnd] = some s' ∧
+      s'.spc = .returned true ∧ s'.fpNotified = true ∧
+      (s'.conns.map fun k => (k.srvClosed, k.tickAfterPoll, k.lateReg, k.notified)) = [(true, true, false, true)] ∧
+      (s'.conns.map fun k => (k.got, k.gotMsg, k.sawEof)) = [([5], true, true)] := by
+  refine ⟨_, rfl, by decide, _, rfl, ?_, ?_, ?_, ?_⟩ <;> decide
+
+/-- the current code with the drain loop that tests before it waits (`for numInvoke > 0 { <-tk.C }`) -/
+def noTickCfg : Cfg := { repaired none with drainFirstTick := false }
+
+/-- **Without the first tick.** Same schedule; the deferred drain tests at once, sees `numInvoke == 0`
+and closes the connection — before the poller's first call. That call then sends the close message to
+the connections that are left, finds the table empty and `Shutdown` returns "all closed": the client got
+its response and EOF and never the reconnect notification, although all three conditions of
+`C12_notified_before_close` hold. -/
+theorem C12_no_first_tick_counterexample :
+    ∃ s, run noTickCfg (lateRequestSchedule ++
+        [.drainTick 0, .drainClose 0, .ciBegin, .ciEnd, .recvRsp 0 0, .recvEof 0]) = some s ∧
+      s.spc = .returned true ∧ s.fpNotified = true ∧
+      (s.conns.map fun k => (k.srvClosed, k.tickAfterPoll, k.lateReg, k.notified)) = [(true, true, false, false)] ∧
+      (s.conns.map fun k => (k.got, k.gotMsg, k.sawEof)) = [([5], false, true)] := by
+  refine ⟨_, rfl, ?_, ?_, ?_, ?_⟩ <;> decide
+
 /-! ## The code as found, and what an atomic `CloseIdles` would have given -/
 
 /-- **Answered before close, for every request dispatched before the close** — for any pool
@@ -488,7 +563,7 @@ example : ∃ s, run { pool := none, releaseAfterDrain := false, ci := .atomic }
     [.connect, .accept 0, .register 0, .stamp 0, .send 0 11, .send 0 12, .read 0 2, .dispatch 0,
      .dispatch 0, .start 0 0, .start 0 1, .stamp 0, .shutdownCall, .setClosed, .acceptExit, .onShutdownRet,
      .ciBegin, .ciVisit 0, .ciEnd, .readErr 0 false, .fin 0 1, .write 0 1, .dec 0 1, .fin 0 0, .write 0 0,
-     .dec 0 0, .drainClose 0, .recvRsp 0 1, .recvRsp 0 0, .recvMsg 0, .recvEof 0, .ciBegin, .ciEnd] = some s ∧
+     .dec 0 0, .drainTick 0, .drainClose 0, .recvRsp 0 1, .recvRsp 0 0, .recvMsg 0, .recvEof 0, .ciBegin, .ciEnd] = some s ∧
     s.spc = .returned true ∧
     (s.conns.map fun k => (k.srvClosed, k.reqs.map (·.st), k.got, k.gotMsg, k.sawEof)) =
       [(true, [.done true, .done true], [12, 11], true, true)] := by
@@ -650,7 +725,7 @@ example : ∃ s, run poolFixedCfg
     ((d15Schedule.take 22) ++
      [.fin 0 0, .write 0 0, .dec 0 0, .pGive, .start 0 1, .pTake, .fin 0 1, .write 0 1, .dec 0 1, .pGive, .start 0 2,
       .onShutdownRet, .ciBegin, .ciVisit 0, .ciEnd, .readErr 0 false, .fin 0 2, .write 0 2, .dec 0 2,
-      .drainClose 0, .relCall, .pStop, .relRet, .recvRsp 0 0, .recvRsp 0 1, .recvRsp 0 2, .recvMsg 0,
+      .drainTick 0, .drainClose 0, .relCall, .pStop, .relRet, .recvRsp 0 0, .recvRsp 0 1, .recvRsp 0 2, .recvMsg 0,
       .recvEof 0, .ciBegin, .ciEnd]) = some s ∧
     s.spc = .returned true ∧ s.pst = .stopped ∧
     (s.conns.map fun k => (k.srvClosed, k.got, k.gotMsg, k.sawEof, k.reqs.map (·.st))) =
@@ -729,7 +804,7 @@ closed without ever receiving the close message. (The window is the few instruct
 theorem C12_notify_unregistered_counterexample :
     ∃ s, run (asFound none)
         [.connect, .accept 0, .shutdownCall, .setClosed, .acceptExit, .closeMsg, .register 0, .stamp 0,
-         .readErr 0 false, .drainClose 0, .recvEof 0] = some s ∧
+         .readErr 0 false, .drainTick 0, .drainClose 0, .recvEof 0] = some s ∧
       s.listenClosed = 2 ∧ (s.conns.map fun k => (k.srvClosed, k.notified, k.sawEof)) = [(true, false, true)] := by
   refine ⟨_, rfl, ?_, ?_⟩ <;> decide
 
